@@ -296,7 +296,7 @@ func TestCheck(t *testing.T) {
 			}
 			if len(what) > 0 {
 				c.reportTest(rg, p, what, detail)
-			} else if m.Undone {
+			} else if m.Undone && m.Halt {
 				r.Sample(map[string]any{"layer": "A", "mode": "test", "prog": p, "log": m.Log, "notifications": m.State.Notes, "storage": m.State.storLines()})
 			}
 		}
@@ -333,14 +333,6 @@ func TestCheck(t *testing.T) {
 		}
 	})
 	fmt.Printf("layer A real blocks: %d programs, %.1fs\n", bUndone.Get()+bFault.Get()+bHalt.Get(), r.Elapsed())
-	for k, v := range map[string]*vk.Counter{"A:test:HALT:callee-changes-undone": &undone, "A:test:HALT:callee-failed-nothing-to-undo": &restoredNoop,
-		"A:test:HALT:no-failure": &plain, "A:test:FAULT": &faulted, "A:block:HALT:callee-changes-undone": &bUndone, "A:block:FAULT": &bFault, "A:block:HALT:other": &bHalt} {
-		for i := int64(0); i < min(v.Get(), 1); i++ {
-			r.Outcome(k)
-		}
-	}
-
-
 	for k, v := range map[string]*vk.Counter{"A:test:HALT:callee-changes-undone": &undone, "A:test:HALT:callee-failed-nothing-to-undo": &restoredNoop,
 		"A:test:HALT:no-failure": &plain, "A:test:FAULT": &faulted, "A:block:HALT:callee-changes-undone": &bUndone, "A:block:FAULT": &bFault, "A:block:HALT:other": &bHalt} {
 		if v.Get() > 0 {
